@@ -139,7 +139,7 @@ func (v *fnVC) oblige(kind, text string, goal T, pos token.Pos) {
 	}
 	label := text
 	if strings.HasPrefix(kind, "rte.") {
-		if v.con != nil && ((v.con.NoNil && kind == "rte.nil") || v.con.NoRte) {
+		if v.con != nil && ((v.con.NoNil && kind == "rte.nil") || v.con.NoRte || hasStr(v.con.NoRteKinds, kind)) {
 			if kind != "rte.conv" {
 				v.assume(implies(v.reach[v.blk], goal))
 			}
@@ -205,6 +205,11 @@ func (v *fnVC) ix(off, i T) T {
 }
 
 func (v *fnVC) elemAddr(b, i T) T {
+	if v.P.bv && (strings.HasPrefix(i, "(_ bv") || strings.HasPrefix(i, "#x")) {
+		// 64-bit mode: element indices of the address space stay mathematical (only constant indices occur in
+		// the functions verified in this mode: the argument arrays of variadic calls)
+		i = app("bv2nat", i)
+	}
 	t := app("elem", b, i)
 	if strings.Contains(t, "q_") {
 		v.P.add("elemAxiom", "(assert (forall ((b Int) (i Int)) (! (and (= (ebase (elem b i)) b) (= (eidx (elem b i)) i) (= (akind (elem b i)) (- 1)) (= (root (elem b i)) (root b))) :pattern ((elem b i)))))")
